@@ -131,7 +131,7 @@ func vServing() int {
 		}
 		buf = make([]byte, 2*len(buf))
 	}
-	return bytes.Count(buf, []byte(").handleClient("))
+	return bytes.Count([]byte(vCanonNames(string(buf))), []byte(").handleClient("))
 }
 
 var vSerialPhase bool // set while the serial (GOMAXPROCS(1)) histories run: nothing else of the harness is running
